@@ -361,16 +361,16 @@ proof fn lemma_frags_adv(a: Record, b: Record, k: int)
 spec fn same_record(a: Record, b: Record) -> bool { a.typ == b.typ && (a.cont is None <==> b.cont is None) }
 
 //@@ impl src/xls.rs Record
-//@@ fn src/xls.rs Record::continue_record props=C12 entry ret=res
+//@@ fn src/xls.rs Record::continue_record props=C12,C19,C02 entry ret=res
 //@@ sig
     ensures
-        //# C12.continue_none
+        //# C12,C19,C02.continue_none
         !res <==> cont_seq(old(self).cont).len() == 0,
-        //# C12.continue_frame_on_false
+        //# C12,C19,C02.continue_frame_on_false
         !res ==> *final(self) == *old(self),
-        //# C12.continue_pops_head
+        //# C12,C19,C02.continue_pops_head
         res ==> frags(*final(self)) == next_frag(frags(*old(self))),
-        //# C12.continue_frame
+        //# C12,C19,C02.continue_frame
         same_record(*old(self), *final(self)),
 //@@ end
 
